@@ -52,11 +52,11 @@ type Partition struct {
 	// Seen is the set of attribute types passed on.
 	Seen [256]bool
 	// NAttrs is the number of attributes present (passed on or suppressed).
-	NAttrs   int
-	NDup     int
-	NExtLen  int
+	NAttrs    int
+	NDup      int
+	NExtLen   int
 	Withdrawn []byte
-	NLRI     []byte
+	NLRI      []byte
 }
 
 // PartitionUpdate computes the expected callback trace for an UPDATE body.
@@ -211,9 +211,9 @@ func (r AttrRule) ValueFault(v []byte) (fault string, dontCare bool) {
 
 // ASPathRef is the reference decode of an AS_PATH with 4-octet AS numbers.
 type ASPathRef struct {
-	Set      []uint32 // all AS numbers of AS_SET segments, in wire order
-	Sequence []uint32 // all AS numbers of AS_SEQUENCE segments, in wire order
-	Segments int
+	Set              []uint32 // all AS numbers of AS_SET segments, in wire order
+	Sequence         []uint32 // all AS numbers of AS_SEQUENCE segments, in wire order
+	Segments         int
 	SameTypeRepeated bool
 }
 
